@@ -158,6 +158,21 @@ def run(ctx, res):
     PH = "elf::program_header::ProgramHeader32"
     SH = "elf::section::SectionHeader32"
     # loop identification by the iterator they draw from
+    # the segment-copy loop: the program-header loop in which some trace copies
+    copy_loops = set()
+    for o in outs:
+        effs = list(o.state.eff)
+        for idx, e in enumerate(effs):
+            if e[0] == "iter-next" and isinstance(e[3], Agg) and len(e[3].fields) == len(fields_of(facts, PH)) and isinstance(e[3].fields[0], SymEnum):
+                heads = [x for x in effs[:idx] if x[0] == "loop-head"]
+                rest = effs[idx + 1:]
+                stop = [i for i, x in enumerate(rest) if x[0] in ("loop-back", "iter-next", "iter-done")]
+                seg = rest[: stop[0]] if stop else rest
+                if heads and any(x[0] == "copy" for x in seg):
+                    copy_loops.add(heads[-1][1])
+    res.ob(len(copy_loops) == 1)
+    if len(copy_loops) != 1:
+        res.errors.append("expected exactly one segment-copy loop, found %r" % sorted(copy_loops))
     seg_seen = {"copy": 0, "skip": 0}
     got_seen = {"step": 0, "er5": 0}
     other_copy = 0
@@ -176,6 +191,9 @@ def run(ctx, res):
                 seg = rest[: stop[0]] if stop else rest
                 if not stop or rest[stop[0]][0] != "loop-back":
                     continue
+                heads = [x for x in effs[:idx] if x[0] == "loop-head"]
+                if not heads or heads[-1][1] not in copy_loops:
+                    continue   # another loop over the program headers (image extent, C12)
                 ty = get(facts, PH, ph, "ty").bits
                 is_load = bv.eq(ty, bv.const(1, 64))
                 copies = [x for x in seg if x[0] == "copy"]
